@@ -171,6 +171,14 @@ def gen_case(rng, nops, untrusted=False):
                     seg = list(reversed(seg))
                 if rng.chance(1, 6):
                     seg = []
+                if rng.chance(1, 4) and len(path) >= 2:
+                    # a header the node may well hold (near the end of a branch), followed by headers that do not
+                    # descend from it: another branch, an earlier part of the same branch, or the header itself again
+                    first = path[max(0, len(path) - 1 - rng.below(3))]
+                    other = t.path_to(rng.choice(t.branches)[-1])
+                    j = rng.below(len(other))
+                    tail = [x for x in other[j:j + rng.range(1, 3)] if t.parent.get(x) != first] or [first]
+                    seg = [first] + tail
                 ops.append(["uheaders", t.pairs(seg)])
     ops += [["process"], ["check"]]
     parents = [[i, p] for i, p in sorted(t.parent.items())]
@@ -242,10 +250,31 @@ def long_cases():
     return res
 
 
+def untrusted_proof_cases():
+    """The untrusted peer's header proof, systematically: the node holds 0..8 (and a side branch header it has only seen
+    offered); one headers message per case - whose first header is known / recent or not and whose later headers
+    descend from it or not - followed by an inventory and a tx from that peer (listened to only if verified)."""
+    par = [[i, i - 1] for i in range(1, 9)] + [[30, 5], [31, 30], [40, 8], [41, 40]]
+    pm = {a: b for a, b in par}
+    base = [["version"], ["check"], ["headers", [[i, i - 1] for i in range(1, 9)]]]
+    for i in range(1, 9):
+        base += [["block", i, 1], ["process"]]
+    base += [["check"], ["headers", []], ["check"]]
+    msgs = [[8], [7, 8], [8, 40], [8, 40, 41], [8, 31], [8, 3], [8, 8], [8, 30, 31], [7, 8, 31], [7, 30], [6, 7, 8], [8, 7],
+            [8, 41], [5, 30, 31], [2, 3], [40, 41], [8, 40, 31], [7, 6], []]
+    res = []
+    for m in msgs:
+        ops = base + [["uheaders", [[i, pm.get(i, -50)] for i in m]], ["uinv", 1], ["utx", 2], ["check"]]
+        res.append({"cfg": {"parents": par, "start": 0}, "ops": ops, "origin": "scripted-untrusted-proof"})
+    return res
+
+
 def make_cases(tier, rng, replay, untrusted=False, corpus="sync"):
     cases = []
     if replay:
         return [{"cfg": replay.get("cfg", {}), "ops": replay["ops"], "origin": "replay"}]
+    if untrusted:
+        cases += untrusted_proof_cases()
     d = os.path.join(vlib.VERIF, "corpus", corpus)
     if os.path.isdir(d):
         for f in sorted(os.listdir(d)):
